@@ -89,6 +89,8 @@ def random_spec(r: random.Random, idx: int) -> dict:
             spec["objective_form"] = "lambda"
         elif r.random() < 0.6:
             spec["dump_subprocess"] = True       # (module-level objective: restorable in another interpreter)
+        if r.random() < 0.5:
+            spec["branch_copy"] = True           # in-memory checkpoint: copy.deepcopy(tree), the copy runs on
     # global stop condition (only kinds that are guaranteed to end the run, or runs allowed to be cut)
     x = r.random()
     if x < 0.45:
@@ -298,6 +300,30 @@ def engine_specs() -> list[dict]:
             n += 1
             out.append(dict(base, name=f"eng{n}", seed=500 + n, maximize=maximize,
                             levels=[{"engine": "DE", "pop": 8, "gens": 1}, dict(child)], fn=["funnels", "zero"][n % 2]))
+    return out
+
+
+def branch_specs() -> list[dict]:
+    """In-memory checkpoints: the live tree is deep-copied at a boundary, the copy runs to its end (a tree like any other),
+    then the live tree goes on."""
+    out = []
+    base = {"dim": 2, "box": "sym"}
+    for n, (root, child) in enumerate((("SEA", "DE"), ("DE", "SHADE"), ("SHADE", "SEA"), ("SEA", "CMA"), ("LHS", "SEA"), ("DE", "LOCAL")), start=1):
+        lv0 = {"engine": root, "pop": 8, "gens": 1 + n % 2}
+        lv1 = {"engine": child, "gens": 2, "lsc": {"kind": "MetaepochLimit", "n": 3}}
+        if child not in ("CMA", "LOCAL"):
+            lv1["pop"] = 6
+        if child == "LOCAL":
+            lv1 = {"engine": "LOCAL", "maxiter": 3}
+        for lv in (lv0, lv1):
+            if lv["engine"] == "SHADE":
+                lv["mem"] = 3
+            if lv["engine"] == "LHS":
+                lv.pop("gens", None)
+        out.append(dict(base, name=f"branch{n}", seed=2000 + n, levels=[lv0, lv1], hibernation=(n % 2 == 0), maximize=(n % 3 == 0),
+                        sprout={"kind": "nbc", "gen": 1.0, "trunc": 1.0, "fil": 0.5, "limit": 3} if n % 2 else {"kind": "simple", "far": 0.05, "limit": 3},
+                        gsc=[{"kind": "MetaepochLimit", "n": 6}, {"kind": "SingularEvalLimit", "n": 220}][n % 2],
+                        dump_at=2 + n % 2, branch_copy=True, fn=["multi", "funnels", "plateau"][n % 3]))
     return out
 
 
@@ -596,7 +622,7 @@ def user_specs() -> list[dict]:
                         gsc={"kind": "MetaepochLimit", "n": 7}, sprout=json.loads(json.dumps(sprout)), fn="funnels"))
     for k, child in enumerate(({"engine": "CUSTOM", "pop": 5, "gens": 1}, {"engine": "DOC", "pop": 5}, {"engine": "MEMETIC", "pop": 5, "gens": 1})):
         n += 1      # a tree with user-defined classes snapshotted and restored in a fresh interpreter
-        out.append(dict(base, name=f"user{n}", seed=1600 + n, maximize=k == 1, dump_at=1 + k % 2, dump_subprocess=True,
+        out.append(dict(base, name=f"user{n}", seed=1600 + n, maximize=k == 1, dump_at=1 + k % 2, dump_subprocess=True, branch_copy=True,
                         levels=[{"engine": ["DOC", "SEA", "DE"][k], "pop": 8, "gens": 1}, dict(child, lsc={"kind": "MetaepochLimit", "n": 2})],
                         gsc={"kind": "MetaepochLimit", "n": 5}, sprout={"kind": "simple", "far": 0.02, "limit": 2}, fn="multi"))
     for k, child in enumerate(({"engine": "CUSTOM", "pop": 5, "gens": 1}, {"engine": "DOC", "pop": 5}, {"engine": "CUSTOM", "pop": 5, "gens": 2})):
@@ -623,7 +649,7 @@ def long_specs(tier: str = "quick") -> list[dict]:
 
 def gen_specs(seed: int, n_random: int, tier: str = "quick") -> list[dict]:
     r = random.Random(seed)
-    specs = repo_test_specs() + sweep_specs(tier) + lifecycle_specs() + engine_specs() + init_specs() + manual_specs() + frontend_specs() + penalty_specs() + tiny_specs() + partial_specs() + fidelity_specs() + adaptive_specs() + big_specs(tier) + user_specs() + long_specs(tier)
+    specs = repo_test_specs() + sweep_specs(tier) + lifecycle_specs() + engine_specs() + init_specs() + manual_specs() + frontend_specs() + branch_specs() + penalty_specs() + tiny_specs() + partial_specs() + fidelity_specs() + adaptive_specs() + big_specs(tier) + user_specs() + long_specs(tier)
     for i in range(n_random):
         specs.append(random_spec(r, i))
     return specs
